@@ -238,6 +238,8 @@ class Endpoint:
         self.sent_packets = []    # PacketRec of everything this endpoint emitted
         self.api_calls = 0
         self.timer_late = 0.0
+        self.post_term_timers = 0
+        self.was_late = False     # the harness fired one of this endpoint's timers late
         self.qlogger = None
 
 
@@ -354,6 +356,8 @@ class NetSim:
 
     def pump(self, ep, cause):
         conn = ep.conn
+        for m in self.monitors:
+            m.before_send(self, ep)
         out = conn.datagrams_to_send(now=self.now)
         recs_all = []
         for data, addr in out:
@@ -370,6 +374,11 @@ class NetSim:
             d.recs = self.obs.observe(ep.name, data, addr, self.now)
             ep.sent_packets.extend(d.recs)
             recs_all.append((d, addr))
+            if ep.name == "s" and addr != self.client_addr:
+                # addressed to where the client is not (stale or spoofed address): blackholed
+                d.kind = "misrouted"
+                self.log("send_misrouted", (ep.name, d.id, len(data), addr))
+                continue
             self.inflight.append(d)
             self.log("send", (ep.name, d.id, len(data), [r.brief()[1:4] for r in d.recs]))
         # drain events
@@ -557,6 +566,8 @@ class NetSim:
         if at > self.now:
             self.now = at
         self.log("timer", (ep.name, round(at - self.t0, 6)))
+        if ep.terminated is not None:
+            ep.post_term_timers += 1
         before_timer = ep.conn.get_timer()
         self.api(ep, "handle_timer", lambda: ep.conn.handle_timer(now=self.now))
         after = ep.conn.get_timer()
@@ -571,10 +582,13 @@ class NetSim:
         out = []
         for name in ("c", "s"):
             ep = self.ep[name]
-            if ep.conn is None or ep.terminated is not None:
+            if ep.conn is None:
+                continue
+            if ep.terminated is not None and ep.post_term_timers >= 3:
                 continue
             t = ep.conn.get_timer()
             if t is not None:
+                # a caller keeps honouring get_timer() after termination too (bounded)
                 out.append((max(t, self.now) + ep.timer_late, name, t))
         out.sort()
         return out
@@ -604,7 +618,8 @@ class NetSim:
                 continue
             if until is not None and until(self) and self.quiescent():
                 return "done"
-            if all(e.terminated is not None or e.conn is None for e in self.ep.values()) and not self.inflight:
+            if (all(e.terminated is not None or e.conn is None for e in self.ep.values())
+                    and not self.inflight and not self._timers()):
                 return "terminated"
             self.nsteps += 1
             self.inflight.sort(key=lambda d: (d.arrival, d.id))
@@ -625,6 +640,8 @@ class NetSim:
                         menu.append(("delay", first, 1.5))
                     if "rebind" in self.dev and first.src == "c" and self.client_addr == C_ADDR:
                         menu.append(("rebind", first))
+                    if "spoof" in self.dev and first.src == "c" and first.kind == "genuine":
+                        menu.append(("spoof", first))
             elif timers:
                 at, name, raw = timers[0]
                 menu.append(("timer", name, at))
@@ -664,6 +681,13 @@ class NetSim:
                 self.deliver(d)
             elif k == "delay":
                 ev[1].arrival += ev[2]
+            elif k == "spoof":
+                d = ev[1]
+                c2 = Dgram()
+                c2.id, self.next_id = self.next_id, self.next_id + 1
+                c2.src, c2.dst, c2.data, c2.src_addr, c2.kind = d.src, d.dst, d.data, C_ADDR2, "dup"
+                c2.sent, c2.recs, c2.arrival = d.sent, d.recs, d.arrival
+                self.deliver(c2, src_addr=C_ADDR2)
             elif k == "rebind":
                 self.inflight.remove(ev[1])
                 self.client_addr = C_ADDR2
@@ -675,6 +699,7 @@ class NetSim:
                 self.fire_timer(self.ep[ev[1]], ev[2])
             elif k == "late":
                 ep = self.ep[ev[1]]
+                ep.was_late = True
                 at = self._timers()[0][0] + ev[2]
                 # a late timer may be overtaken by datagram arrivals: model by firing it late now
                 # only if nothing arrives earlier, else postpone via timer_late until it fires
@@ -697,6 +722,9 @@ class Monitor:
         pass
 
     def before_api(self, w, ep, name):
+        pass
+
+    def before_send(self, w, ep):
         pass
 
     def after_pump(self, w, ep, cause, sent, new_events, timer):
